@@ -172,8 +172,10 @@ theorem untrimmed_filter_forced_both {o : Opts} {names names2 : List String} {st
 
 /-! ## `--pair-adapters` -/
 
-/-- the two matches of the chosen pair belong to adapters of the same rank -/
+/-- the two matches of the chosen pair belong to adapters of the same rank (`PairedAdapterCutter` takes the adapters as given: it
+    never builds an index, so no list entry is an index object) -/
 theorem bestPairGo_same_rank {s1 s2 : Bytes} {ads1 ads2 : List Matchable} {m1 m2 : AnyMatch}
+    (hn1 : ∀ a ∈ ads1, a.isIndexed = false) (hn2 : ∀ a ∈ ads2, a.isIndexed = false)
     (h : bestPairGo s1 s2 (ads1.zip ads2) 0 none = some (m1, m2)) :
     ∃ k x1 x2, ads1[k]? = some x1 ∧ ads2[k]? = some x2 ∧ x1.matchTo k s1 = some m1 ∧ x2.matchTo k s2 = some m2 ∧
       m1.adapter = k ∧ m2.adapter = k := by
@@ -183,7 +185,7 @@ theorem bestPairGo_same_rank {s1 s2 : Bytes} {ads1 ads2 : List Matchable} {m1 m2
     simp only [Option.some.injEq] at h
     subst h
     obtain ⟨x1, x2, e1, e2, t1, t2⟩ := cand_zip.1 hc
-    exact ⟨j, x1, x2, e1, e2, t1, t2, matchTo_adapter t1, matchTo_adapter t2⟩
+    exact ⟨j, x1, x2, e1, e2, t1, t2, matchTo_adapter (hn1 x1 (List.mem_of_getElem? e1)) t1, matchTo_adapter (hn2 x2 (List.mem_of_getElem? e2)) t2⟩
 
 /-- `_find_best_match_pair` is an arg-max: among the ranks `j` at which both the R1 adapter matches R1 and the R2 adapter
     matches R2, the chosen rank `k` has the highest summed score, among those the fewest summed errors, among those
@@ -215,6 +217,7 @@ theorem bestPairGo_is_argmax (s1 s2 : Bytes) (ads1 ads2 : List Matchable) :
     rank `k` (the action applied to each), and both infos get exactly that one match appended. -/
 theorem pair_adapters_both_or_neither {a1 a2 ads1 ads2 : List Matchable} {action : Action} {f1 f2 : Bool}
     {r1 r2 o1 o2 : Read} {i1 i2 i1' i2' : Info} {evs : List Event}
+    (hn1 : ∀ a ∈ ads1, a.isIndexed = false) (hn2 : ∀ a ∈ ads2, a.isIndexed = false)
     (h : applyP a1 a2 (.pairAdapters ads1 ads2 action f1 f2) (r1, r2) (i1, i2) = .ok ((o1, o2), (i1', i2'), evs)) :
     (bestPairGo r1.seq r2.seq (ads1.zip ads2) 0 none = none ∧ o1 = r1 ∧ o2 = r2 ∧ i1' = i1 ∧ i2' = i2 ∧ evs = []) ∨
     (∃ k x1 x2 m1 m2, bestPairGo r1.seq r2.seq (ads1.zip ads2) 0 none = some (m1, m2) ∧
@@ -231,7 +234,7 @@ theorem pair_adapters_both_or_neither {a1 a2 ads1 ads2 : List Matchable} {action
     exact .inl ⟨hb, rfl, rfl, rfl, rfl, rfl⟩
   · rename_i m1 m2 hb
     right
-    obtain ⟨k, x1, x2, e1, e2, t1, t2, g1, g2⟩ := bestPairGo_same_rank hb
+    obtain ⟨k, x1, x2, e1, e2, t1, t2, g1, g2⟩ := bestPairGo_same_rank hn1 hn2 hb
     simp only [bind, Except.bind] at h
     split at h
     · simp at h
@@ -248,11 +251,12 @@ theorem pair_adapters_both_or_neither {a1 a2 ads1 ads2 : List Matchable} {action
 /-- with the `trim` action both mates are cut by their match, or neither is changed -/
 theorem pair_adapters_trim {a1 a2 ads1 ads2 : List Matchable} {f1 f2 : Bool}
     {r1 r2 o1 o2 : Read} {i1 i2 i1' i2' : Info} {evs : List Event}
+    (hn1 : ∀ a ∈ ads1, a.isIndexed = false) (hn2 : ∀ a ∈ ads2, a.isIndexed = false)
     (h : applyP a1 a2 (.pairAdapters ads1 ads2 .trim f1 f2) (r1, r2) (i1, i2) = .ok ((o1, o2), (i1', i2'), evs)) :
     (o1 = r1 ∧ o2 = r2 ∧ evs = []) ∨
     (∃ m1 m2, bestPairGo r1.seq r2.seq (ads1.zip ads2) 0 none = some (m1, m2) ∧ m1.adapter = m2.adapter ∧
       o1 = m1.trimmed r1 ∧ o2 = m2.trimmed r2) := by
-  rcases pair_adapters_both_or_neither h with ⟨-, rfl, rfl, -, -, rfl⟩ | ⟨k, x1, x2, m1, m2, hb, -, -, -, -, g1, g2, ⟨ra, h1⟩, ⟨rb, h2⟩, -⟩
+  rcases pair_adapters_both_or_neither hn1 hn2 h with ⟨-, rfl, rfl, -, -, rfl⟩ | ⟨k, x1, x2, m1, m2, hb, -, -, -, -, g1, g2, ⟨ra, h1⟩, ⟨rb, h2⟩, -⟩
   · exact .inl ⟨rfl, rfl, rfl⟩
   · right
     simp only [pairActionRead, Except.ok.injEq, Prod.mk.injEq] at h1 h2
